@@ -109,9 +109,15 @@ class CexLeaves:
         return v.hex() if isinstance(v, (bytes, bytearray)) else "00" * n
 
     def bool(self, name):
+        if name not in self.c and name in self.fixed:
+            return bool(self.fixed[name])
         return bool(self.c.get(name, False))
 
+    fixed = {}  # selector name -> option index (obligations split on selectors); used when the counterexample does not carry the leaf
+
     def sel(self, name, options):
+        if name not in self.c and name in self.fixed:
+            return options[self.fixed[name] % len(options)]
         v = self.c.get(name, options[0])
         for o in options:
             if o == v or (isinstance(o, (list, tuple)) and list(o) == (list(v) if isinstance(v, (list, tuple)) else v)):
